@@ -3,6 +3,7 @@ import os
 import sys
 sys.path.insert(0, os.path.dirname(os.path.abspath(__file__)))
 import core  # noqa: E402
+import groups  # noqa: E402  (kernel III, identifier part: renames, escape_ID, bounds after a rename; coq/theories/Groups)
 
 if __name__ == "__main__":
     sys.exit(core.main(
@@ -14,4 +15,7 @@ if __name__ == "__main__":
              "EVERY step the Python objects and the raw GLPK problem (swiglpk) are observed; non-trivial = the history "
              "contains an operation other than Enter/Exit/NewRxn; distinct = distinct op lists",
         manifest_trusted=["optlang / GLPK container semantics are modelled (Core/Model.v 'solver primitives'), validated by "
-                          "reading the raw problem back after every step"]))
+                          "reading the raw problem back after every step",
+                          "groups kernel (identifier part): the solver is observed through the names (optlang and raw GLPK), "
+                          "see harness/groups.py observe"],
+        extra=[groups.run_c01], extra_targets=groups.EXTRA_TARGETS))
